@@ -195,6 +195,15 @@ func (w *World) sweepsFor(prop string, cfg *RunCfg) []workItem {
 		for _, fn := range cfns {
 			items = append(items, workItem{fn: fn, why: "method of error type", opts: VerifyOpts{Props: map[string]bool{"C05": true}, Safety: true, ExtraRequires: ifaceParamsNonNil}})
 		}
+	case "C03":
+		// sink sweep: every function of the module that calls redact.Safe is symbolically executed;
+		// each such call is an obligation "the argument is built from PII-free sources"
+		for _, fn := range w.safeSinkFuncs() {
+			if c := w.Contracts[fn]; c != nil && contractMentions(c, "C03") {
+				continue // planned through its contract
+			}
+			items = append(items, workItem{fn: fn, why: "redact.Safe sink sweep", opts: VerifyOpts{Props: map[string]bool{"C03": true}, Safety: false, ExtraRequires: ifaceParamsNonNil}})
+		}
 	case "C10":
 		// nil discipline sweep: every exported function of the module that takes one error and
 		// returns an error returns nil for a nil argument (functions with an explicit C10 contract
@@ -331,4 +340,74 @@ func ifaceParamsNonNil(ex *Ex, fr *Frame, st *State) []*T {
 		}
 	}
 	return rq
+}
+
+// safeSinkFuncs: functions of the module (non-test packages) containing a call to redact.Safe.
+func (w *World) safeSinkFuncs() []*ssa.Function {
+	var out []*ssa.Function
+	for fn := range w.AllFuncs {
+		if fn.Pkg == nil || !w.InModule(fn.Pkg.Pkg) || w.isGenerated(fn) {
+			continue
+		}
+		p := fn.Pkg.Pkg.Path()
+		if strings.Contains(p, "testutils") || strings.Contains(p, "fmttests") {
+			continue
+		}
+		if pos := w.Fset.Position(fn.Pos()); strings.HasSuffix(pos.Filename, "_test.go") {
+			continue
+		}
+		has := false
+		for _, b := range fn.Blocks {
+			for _, ins := range b.Instrs {
+				if c, ok := ins.(*ssa.Call); ok {
+					if callee := c.Call.StaticCallee(); callee != nil && callee.String() == "github.com/cockroachdb/redact.Safe" {
+						has = true
+					}
+				}
+			}
+		}
+		if has && fn.Parent() == nil && !strings.HasPrefix(fn.Name(), "init") {
+			out = append(out, fn)
+		}
+	}
+	sort.Slice(out, func(i, j int) bool { return out[i].String() < out[j].String() })
+	return out
+}
+
+// encoderSafetySweep (C03): every function registered as an encoder returns a PII-free reportable
+// payload (its second result). Functions already planned through their contract get the goal
+// added; the others are planned here. This is the proof side of the assumptions
+// registered_encoders_safe / registered_leaf_encoders_safe used by encodeWrapper / encodeLeaf.
+func (w *World) encoderSafetySweep(items []workItem) []workItem {
+	goal := func(ex *Ex, fr *Frame, st *State, results []SV) []NamedGoal {
+		if len(results) < 2 {
+			return nil
+		}
+		if _, ok := results[1].Ty.G.Underlying().(*types.Slice); !ok {
+			return nil
+		}
+		return []NamedGoal{{Name: "encoder.safe", Text: "the reportable payload returned by a registered encoder is PII-free", Goal: App("f$safeSeq", SBool, results[1].T), Props: []string{"C03"}}}
+	}
+	planned := map[*ssa.Function]int{}
+	for i, it := range items {
+		if it.fn != nil {
+			planned[it.fn] = i + 1
+		}
+	}
+	done := map[*ssa.Function]bool{}
+	for _, rs := range w.registrationSites() {
+		if !strings.Contains(rs.Kind, "Encoder") || done[rs.Fn] {
+			continue
+		}
+		done[rs.Fn] = true
+		if i := planned[rs.Fn]; i > 0 {
+			items[i-1].opts.ExtraPosts = goal
+			continue
+		}
+		items = append(items, workItem{fn: rs.Fn, why: "registered " + rs.Kind, opts: VerifyOpts{
+			Props: map[string]bool{"C03": true}, Safety: false, Vacuity: true,
+			ExtraRequires: ifaceParamsNonNil, ExtraPosts: goal,
+		}})
+	}
+	return items
 }
